@@ -1,0 +1,34 @@
+//go:build verif
+
+package block
+
+import "github.com/evstack/ev-node/types"
+
+// Verification hooks for property C03 (build tag "verif"): read-only views of the header/data
+// caches of the block Manager. Nothing here changes behaviour; no existing line is edited.
+
+// VerifC03HeaderDAIncluded reports whether the header cache carries a DA-included mark for hash.
+func (m *Manager) VerifC03HeaderDAIncluded(hash string) bool { return m.headerCache.IsDAIncluded(hash) }
+
+// VerifC03DataDAIncluded reports whether the data cache carries a DA-included mark for hash.
+func (m *Manager) VerifC03DataDAIncluded(hash string) bool { return m.dataCache.IsDAIncluded(hash) }
+
+// VerifC03HeaderSeen / VerifC03DataSeen report the seen marks of the caches.
+func (m *Manager) VerifC03HeaderSeen(hash string) bool { return m.headerCache.IsSeen(hash) }
+func (m *Manager) VerifC03DataSeen(hash string) bool   { return m.dataCache.IsSeen(hash) }
+
+// VerifC03HeaderCacheItem / VerifC03DataCacheItem return the pending item cached for a height (nil if none).
+func (m *Manager) VerifC03HeaderCacheItem(height uint64) *types.SignedHeader {
+	return m.headerCache.GetItem(height)
+}
+func (m *Manager) VerifC03DataCacheItem(height uint64) *types.Data {
+	return m.dataCache.GetItem(height)
+}
+
+// VerifC03HeaderDAIncludedHeight / VerifC03DataDAIncludedHeight return the DA height recorded with the mark.
+func (m *Manager) VerifC03HeaderDAIncludedHeight(hash string) (uint64, bool) {
+	return m.headerCache.GetDAIncludedHeight(hash)
+}
+func (m *Manager) VerifC03DataDAIncludedHeight(hash string) (uint64, bool) {
+	return m.dataCache.GetDAIncludedHeight(hash)
+}
